@@ -52,6 +52,8 @@ func (c03) Plan(tier string, seed int64) []core.Scenario {
 		out = append(out, core.Scenario{Kind: "busy-blackhole", Seed: seed*7873 + int64(i) + 500, N: map[string]int{"every": []int{100, 40}[i%2], "noise": i % 3, "midframe": 1}, S: map[string]string{}})
 	}
 	out = append(out, core.Scenario{Kind: "stalled-write", Seed: seed * 7867, N: map[string]int{"mb": 32}, S: map[string]string{}})
+	// the connection cut at internal steps of the library (hook points) instead of at frames on the wire
+	out = append(out, planLossAt(tier, seed)...)
 	// calls issued after the connection loop has ended: no-reconnect loss, closer, client context cancelled
 	nE := 1
 	if tier == "thorough" {
@@ -77,6 +79,8 @@ func (c03) Run(sc core.Scenario) core.Result {
 		runBusyBlackhole(sc, r3)
 	case "stalled-write":
 		runStalledWrite(sc, r3)
+	case "lossat":
+		runLossAt(sc, r3)
 	default:
 		runFault(sc, r3, r4)
 	}
